@@ -133,6 +133,17 @@ func runC20(c *Ctx, r *Report, tier string) {
 		}
 		_, ok := c.Requires(ec, isInstr(in), okLit, nil)
 		r.Check(ok, "THRESHOLD", en, "`did you mean` guard", c.ipos(in), "REQ(distance / characters(suggested name) < 0.5), strict", "the suggestion is reachable without the strict test distance/characters(name) < 0.5")
+		// …and is made whenever the test holds: no other condition (number of commands, …) decides about it
+		var extra []string
+		for _, l := range c.depsOf(ec, in) {
+			switch {
+			case okLit(l):
+			case strings.HasPrefix(l.Term, "nonempty(parseState.retargs(") || strings.HasPrefix(l.Term, "lt(0, len(parseState.retargs("): // a word was given (unknown command, not a missing one)
+			default:
+				extra = append(extra, l.String())
+			}
+		}
+		r.Check(len(extra) == 0, "THRESHOLD", en, "`did you mean` has no other guard", c.ipos(in), "CD(suggestion) ⊆ {a word was given, distance/characters < 0.5}", "the suggestion is withheld by "+strings.Join(extra, " ∧ ")+" although the closest command is near enough")
 		// suggested name is closestChoice's
 		sug := false
 		for _, e := range ss.names {
